@@ -473,9 +473,11 @@ fn generate(rng: &mut Rng, thorough: bool) -> Gen {
     //     parked at a hook site (501, 100, 101, 102, 112, 502) and some operation boundaries.
     for (si, (progs, kind)) in scripts().into_iter().enumerate() {
         let cfgs: Vec<Cfg> = if thorough {
-            let mut v: Vec<Cfg> = vec![];
-            for (ci, &t) in caps.iter().enumerate() { for (bi, &(c0, o, _)) in bcfg.iter().enumerate() { if bi == 0 || (bi + ci + si) % 2 == 0 { v.push(Cfg { total: t, c0, o }); } } }
-            v
+            let nb = bcfg.len();
+            vec![Cfg { total: caps[si % 4], c0: 0, o: 0 },
+                 Cfg { total: caps[(si + 1) % 4], c0: bcfg[1 + si % (nb - 1)].0, o: bcfg[1 + si % (nb - 1)].1 },
+                 Cfg { total: caps[(si + 2) % 4], c0: bcfg[1 + (si + 2) % (nb - 1)].0, o: bcfg[1 + (si + 2) % (nb - 1)].1 },
+                 Cfg { total: caps[(si + 3) % 4], c0: bcfg[1 + (si + 4) % (nb - 1)].0, o: bcfg[1 + (si + 4) % (nb - 1)].1 }]
         } else {
             vec![Cfg { total: caps[si % 2], c0: 0, o: 0 }, Cfg { total: caps[(si + 1) % 4], c0: bcfg[1 + si % 3].0, o: bcfg[1 + si % 3].1 }]
         };
@@ -493,7 +495,7 @@ fn generate(rng: &mut Rng, thorough: bool) -> Gen {
                         _ => {}
                     }
                 }
-                let bs: Vec<usize> = if thorough { vec![1, 2, 3, 4, 6, 9, 30] } else { vec![2, 30] };
+                let bs: Vec<usize> = if thorough { vec![1, 3, 30] } else { vec![2, 30] };
                 for &a in &points {
                     for &b in &bs {
                         if !thorough && (a + b + si + x) % 3 == 0 { continue; }
@@ -506,7 +508,7 @@ fn generate(rng: &mut Rng, thorough: bool) -> Gen {
         }
     }
     // (2) random programs and schedules
-    let n_rand = if thorough { 4000 } else { 200 };
+    let n_rand = if thorough { 2500 } else { 200 };
     for i in 0..n_rand {
         let nt = if rng.chance(1, 4) { 3 } else if rng.chance(1, 10) { 1 } else { 2 };
         let keysets: [&[u64]; 4] = [&[K0, K1], &[K0, K1, K2], &[K0, K1, J0], &[K0, K1, K2, K3, J0, J1]];
